@@ -150,6 +150,15 @@ Save(o, fmt) ==
     /\ last' = [st |-> "ok"]
     /\ Log([name |-> "Save", o |-> o, fmt |-> fmt, file |-> Len(files) + 1], [st |-> "ok", file |-> Proj(objs[o])])
 
+(* a save that fails part-way (the target directory does not exist): it raises, writes no file, and must leave the frame
+   such that a later save is as faithful as any other (the Waterfall it prepared stays attached) *)
+SaveFail(o, fmt) ==
+    /\ ~Der /\ Active /\ o \in 1..Len(objs) /\ (All \/ (fmt = "fil" /\ o = 1))
+    /\ (fmt = "h5" => (objs[o].T >= 3 /\ objs[o].F >= 3))
+    /\ objs' = [objs EXCEPT ![o].wf = TRUE]
+    /\ last' = [st |-> "OSError"] /\ UNCHANGED files
+    /\ Log([name |-> "SaveFail", o |-> o, fmt |-> fmt], [st |-> "OSError"])
+
 Load(k) ==
     /\ ~Der /\ Active /\ Room /\ k \in 1..Len(files)
     /\ objs' = Append(objs, [files[k].frame EXCEPT !.tsoff = 0, !.tsgap = 0] @@ [wf |-> TRUE])
@@ -198,6 +207,7 @@ Next == \/ Done
         \/ \E o \in Os, q \in DriftArgs : Dedrift(o, q)
         \/ \E o \in Os, axis \in {"t", "f"} : Integrate(o, axis)
         \/ \E o \in Os, fmt \in {"fil", "h5"} : Save(o, fmt)
+        \/ \E o \in Os, fmt \in {"fil", "h5"} : SaveFail(o, fmt)
         \/ \E k \in 1..2 : Load(k)
         \/ \E k \in 1..2, l \in 0..4, r \in 2..6 : LoadSub(k, l, r)
         \/ \E x \in LoadTArgs : LoadT(x[1], x[2], x[3])
